@@ -350,9 +350,46 @@ def shape_log(tree):
 
 # ----------------------------------------------------------------------------- ErrorInterceptor.print
 def shape_print(tree):
+    """-> (returns at once without stderr, swallowed classes, str(record) guarded, the stream is looked up AT EACH
+    CALL (not kept in an attribute from an earlier report))"""
     fn = find_func(tree, "print", cls="ErrorInterceptor")
     body = strip_doc(fn.body)
-    skips = ast.unparse(body[0]) == "if not sys.stderr:\n    return"
+    # which object receives the report?
+    recv = set()
+    for c in calls_in(fn):
+        f = ast.unparse(c.func)
+        if f.endswith(".write"):
+            recv.add(f[:-len(".write")])
+        if f == "traceback.print_exception":
+            if len(c.args) >= 5:
+                recv.add(ast.unparse(c.args[4]))
+            else:
+                recv |= {ast.unparse(k.value) for k in c.keywords if k.arg == "file"} or {"?"}
+    if len(recv) != 1:
+        raise Unsupported("ErrorInterceptor.print: report written to several objects: %r" % (sorted(recv),))
+    stream = recv.pop()
+    stores_state = any(isinstance(n, (ast.Assign, ast.AugAssign, ast.AnnAssign)) and any(
+        ast.unparse(t).startswith("self.") for t in (n.targets if isinstance(n, ast.Assign) else [n.target]))
+        for n in ast.walk(fn))
+    if stream == "sys.stderr":
+        per_call = not stores_state
+    else:
+        src = [ast.unparse(n.value) for n in ast.walk(fn) if isinstance(n, ast.Assign)
+               and any(ast.unparse(t) == stream for t in n.targets)]
+        if src == ["sys.stderr"] and not stores_state:
+            per_call = True
+        elif src and all(x.startswith("self.") or x == "sys.stderr" for x in src):
+            per_call = False          # taken from an attribute: state that survives between reports
+        else:
+            raise Unsupported("ErrorInterceptor.print: where does %s come from? %r" % (stream, src))
+    skip = [x for x in body if isinstance(x, ast.If) and ast.unparse(x) == "if not %s:\n    return" % stream]
+    skips = len(skip) == 1 and all(not isinstance(x, ast.Try) for x in body[:body.index(skip[0])])
+
+    class Norm(ast.NodeTransformer):
+        def visit_Name(self, node):
+            return ast.parse("sys.stderr", mode="eval").body if node.id == stream else node
+    if stream != "sys.stderr":
+        body = [Norm().visit(x) for x in body]
     tries = [s for s in body if isinstance(s, ast.Try)]
     if len(tries) != 1 or body[-1] is not tries[0]:
         raise Unsupported("ErrorInterceptor.print: outer try not found / not last")
@@ -388,7 +425,7 @@ def shape_print(tree):
             raise Unsupported("ErrorInterceptor.print: record is no longer rendered with str()")
     else:
         raise Unsupported("ErrorInterceptor.print: several inner try statements")
-    return skips, [e for e in ALL if e in swallowed], guards
+    return skips, [e for e in ALL if e in swallowed], guards, per_call
 
 
 # ----------------------------------------------------------------------------- sinks / stop
@@ -403,17 +440,38 @@ def shape_stream(tree):
 
 
 def shape_stop(tree):
+    """-> (`_stopped = True` first, lock statement is `self._protected_lock()` rather than the bare `self._lock`)"""
     fn = find_func(tree, "stop", cls="Handler")
     body = strip_doc(fn.body)
-    if not (len(body) == 1 and isinstance(body[0], ast.With)
-            and ast.unparse(body[0].items[0].context_expr) == "self._protected_lock()"):
-        raise Unsupported("Handler.stop is not one `with self._protected_lock()`")
+    if not (len(body) == 1 and isinstance(body[0], ast.With) and len(body[0].items) == 1):
+        raise Unsupported("Handler.stop is not one with-statement")
+    ctx = ast.unparse(body[0].items[0].context_expr)
+    if ctx == "self._protected_lock()":
+        protected = True
+    elif ctx == "self._lock":
+        protected = False
+    else:
+        raise Unsupported("Handler.stop: lock statement is " + ctx)
     wb = [ast.unparse(s) for s in body[0].body]
     if wb[-1] != "self._sink.stop()":
         raise Unsupported("Handler.stop: sink.stop() is not the last statement")
     if "self._stopped = True" not in wb:
         raise Unsupported("Handler.stop: _stopped is not set")
-    return wb.index("self._stopped = True") == 0
+    return wb.index("self._stopped = True") == 0, protected
+
+
+def shape_tasks(tree):
+    """`Handler.tasks_to_complete`: a non-enqueue handler collects its tasks under `_protected_lock()`"""
+    fn = find_func(tree, "tasks_to_complete", cls="Handler")
+    src = [ast.unparse(s) for s in strip_doc(fn.body)]
+    want_tail = ["with lock:\n    return self._sink.tasks_to_complete()"]
+    if src[-1:] != want_tail:
+        raise Unsupported("Handler.tasks_to_complete changed: %r" % (src,))
+    if "lock = self._queue_lock if self._enqueue else self._protected_lock()" in src:
+        return True
+    if "lock = self._queue_lock if self._enqueue else self._lock" in src:
+        return False
+    raise Unsupported("Handler.tasks_to_complete: lock choice changed: %r" % (src,))
 
 
 def shape_async_write(tree):
@@ -483,14 +541,18 @@ def generate():
         body += lean_pred("workerCaught", wcaught, "error kinds covered by the two `except` clauses of `_queued_writer`")
         body += "/-- what the `get` arm of `_queued_writer` does after reporting -/\ndef workerGetArm : Arm := .%s\n" % ag
         body += "/-- what the `write` arm of `_queued_writer` does after reporting -/\ndef workerWriteArm : Arm := .%s\n" % aw
-        body += lean_bool("stopMarksStoppedFirst", shape_stop(h), "`Handler.stop`: `_stopped = True` is the first statement under the lock")
+        first, prot = shape_stop(h)
+        body += lean_bool("stopMarksStoppedFirst", first, "`Handler.stop`: `_stopped = True` is the first statement under the lock")
+        body += lean_bool("stopUsesProtectedLock", prot, "`Handler.stop`: takes the lock through `_protected_lock()` (re-entrancy detected), not the bare `self._lock`")
+        body += lean_bool("tasksUseProtectedLock", shape_tasks(h), "`Handler.tasks_to_complete`: a non-enqueue handler uses `_protected_lock()`")
         lg, _ = parse_module("_logger.py")
         body += lean_bool("removeUnpublishesFirst", shape_remove(lg), "`Logger.remove`: the reduced registry and min_level are published before `handler.stop()`")
         body += lean_bool("logLoopUnguarded", shape_log(lg), "`Logger._log`: plain loop over the handlers, an exception of `emit` aborts it")
         ei, _ = parse_module("_error_interceptor.py")
-        skips, sw, guards = shape_print(ei)
+        skips, sw, guards, percall = shape_print(ei)
         body += lean_bool("printSkipsWhenNoStderr", skips, "`ErrorInterceptor.print`: returns at once when `sys.stderr` is falsy")
         body += lean_pred("printSwallows", sw, "error kinds of a failing `sys.stderr` that `print` swallows")
+        body += lean_bool("printResolvesStderrPerCall", percall, "`ErrorInterceptor.print`: `sys.stderr` is looked up at each report, nothing is remembered from an earlier one")
         body += lean_bool("printGuardsRecordStr", guards, "`ErrorInterceptor.print`: `str(record)` failure replaced by a placeholder")
         ss, _ = parse_module("_simple_sinks.py")
         body += lean_bool("streamFlushAfterWrite", shape_stream(ss), "`StreamSink.write`: write, then flush")
